@@ -241,11 +241,12 @@ def build_ann(s, env, spelling=None, preds=None):
     if k == "dep":
         # Dependent[...] makes a new, unequal type every time it is written; a user who means "the same
         # type" binds it to a name.  With env["__depcache__"] the same spec yields the same object.
-        cache = env.get("__depcache__") if preds is None else None
+        cache = env.get("__depcache__") if (preds is None and not sp.get("bound_union")) else None
         key = repr(s)
         if cache is not None and key in cache:
             return cache[key]
-        d = Dependent[build_ann(s[1], env, None, preds), make_pred(s[2], preds)]
+        bsp = {"union": sp["bound_union"]} if sp.get("bound_union") else None  # how a union BOUND is spelled
+        d = Dependent[build_ann(s[1], env, bsp, preds), make_pred(s[2], preds)]
         if cache is not None:
             cache[key] = d
         return d
